@@ -39,6 +39,10 @@ inline void workflow(int rank, const std::map<std::string,long>& cp, Dump& out, 
     if (checkpoints) vmpi::checkpoint(dg);
     P.make_rho(beta); P.make_ops(); P.make_gf(); int M = P.M;
     for (int i = 0; i < M; ++i) for (int j = 0; j < M; ++j) for (long n = -1; n <= 1; ++n) put(out, "G", (*P.G)(i, j)(n));
+    // block truncation after the distributed diagonalisation: every rank must discard the same blocks and get the same truncated G
+    { DensityMatrix R2(*P.S, *P.H, beta); R2.prepare(); R2.compute(); R2.truncateBlocks(1e-2, false);
+      for (BlockNumber b = 0; b < P.S->NumberOfBlocks(); b++) put(out, "retained", R2.isRetained(b) ? 1.0 : 0.0);
+      GreensFunction Gt(*P.S, *P.H, P.Ops->getAnnihilationOperator(0), P.Ops->getCreationOperator(0), R2); Gt.prepare(); Gt.compute(); for (long n = -1; n <= 1; ++n) put(out, "Gtrunc", Gt(n)); }
     std::vector<FT> freqs; std::vector<std::array<long,3> > tri = { { 0, 0, 0 }, { 0, -1, 0 }, { 1, -2, 0 }, { -1, 0, 1 } };
     // "freqrep" > 1 (free-running OpenMP pass): a long list in which every triple is repeated several times in a row, so that
     // loop iterations that (wrongly) communicate through shared state overlap in time
